@@ -4,36 +4,56 @@ ENTRY = {'coq_dir': 'C04',
  'cases': {'quick': 600, 'thorough': 9000},
  'consts': ['BACKPRESSURE_BOUNDARY', 'SUBSTREAM_READ_BUFFER_INIT', 'SUBSTREAM_READ_BUFFER_INIT_OTHER', 'SUBSTREAM_SIZE_VEC_LEN'],
  'nontrivial_min_trace': 12,
- 'rule': 'seeded random cases over the real substream::Substream built on a scripted in-memory carrier (SubstreamType::Verif hook): codec '
-         'in {Identity n: n in 0,1,5,10,300,1023,1024,1025,2048,4000,65536,66000,70000} u {UnsignedVarint(None)} u {UnsignedVarint(Some '
-         'm): m in 0,1,20,127,128,300,16384,70000,2^21}; 1-8 (thorough 1-12) messages incl. empty, maximal, max+1 / wrong-size, > '
-         'BACKPRESSURE_BOUNDARY; API sink (poll_ready/start_send/poll_flush in random interleavings, the writer stopping right after a '
-         'flush), send_framed, or mixed; write and read scripts of chunk sizes 1-3, 1-40, boundary values, 2^20, with Pending stalls, '
-         'permanent stalls, rare carrier errors / end of stream; raw reader streams with truncated, non-minimal, over-long (10/11-byte) '
-         'and oversized length prefixes, polled on after errors. After every writer operation: result, pending_out_bytes, queued frame '
-         'lengths, pending_out_frame, and the bytes newly handed to the carrier (run-length encoded) are diffed against the extracted Coq '
-         'model; after every poll_next: result, returned frame bytes, read_buffer.len(), offset, current_frame_size, unread wire. '
-         'Non-trivial = trace of >= 12 numbers; distinct = distinct (case, trace) pairs. The three corpus witnesses (F-C04a/b/c) are '
-         'replayed first on every run.',
- 'trusted_base': ['the scripted carrier of harness/src/c04.rs stands for the transport substream (tcp/websocket/quic over yamux): one '
-                  'script event per poll_read/poll_write/poll_flush call; wakers are not modelled (the harness polls by hand)',
+ 'rule': 'seeded random cases. (A) the real substream::Substream over a scripted in-memory carrier (SubstreamType::Verif hook; one script '
+         'event per poll_read/poll_write/poll_flush/poll_shutdown call): codec in {Identity n: n in 0,1,5,10,300,1023,1024,1025,2048,4000,'
+         '65536,66000,70000} u {UnsignedVarint(None)} u {UnsignedVarint(Some m): m in 0,1,20,127,128,300,16384,70000,2^21}; 1-8 (thorough '
+         '1-12) messages incl. empty, maximal, max+1 / wrong-size, > BACKPRESSURE_BOUNDARY; operations poll_ready / start_send / '
+         'poll_flush / send_framed / Sink::poll_close / Substream::close in random interleavings (sink only, send_framed only, freely '
+         'mixed incl. send_framed on a half-written Sink frame, writer stopping right after a flush, start_send then close without '
+         'flush — where the queued frames are, as the code has it, not sent); write and read scripts with chunk sizes 1-3, 1-40, boundary values, 2^20, Pending stalls, permanent stalls, carrier '
+         'errors, zero-length accepts (WriteZero) and end of stream at random points, operations continued after errors; raw reader '
+         'streams with truncated, non-minimal, over-long (10/11-byte) and oversized length prefixes, polled on after errors. After '
+         'every writer operation: result, pending_out_bytes, queued frame lengths, pending_out_frame, bytes newly handed to the '
+         'carrier (run-length encoded), number of unused carrier script events, carrier-shutdown flag and the wake-up flag (a Pending '
+         'answer must follow a Pending carrier call that was given the caller\'s waker) are diffed against the extracted Coq model; '
+         'after every poll_next: result, returned frame bytes, read_buffer.len(), offset, current_frame_size, unread wire, unused '
+         'script events, wake-up flag. (B) every 25th case runs end to end over a real in-memory yamux connection with the TCP or '
+         'the WebSocket substream type on both ends (VerifYamuxPair hook): SinkExt::feed / flush / send_framed / close on one side, '
+         'a concurrent reader on the other, messages up to 2 MB (several 256 KiB flow-control windows), fixed sizes up to 300000; the '
+         'per-call results, the frames delivered and the clean end of stream are compared with the model\'s prediction. Non-trivial = '
+         'trace of >= 12 numbers; distinct = distinct (case, trace) pairs. The corpus witnesses of the six repaired defects '
+         '(F-C04a..f) and the close-without-flush observation cases are replayed first on every run.',
+ 'trusted_base': ['the scripted carrier of harness/src/c04.rs stands for the transport substream; tcp::Substream and websocket::Substream '
+                  'are stateless pass-through wrappers of a yamux stream (read: metering only) and are exercised by the end-to-end cases; '
+                  'the QUIC and WebRTC substream types are not run (QUIC send_framed uses write_all_chunks, a separate code path)',
                   'message payloads in the runs are a fill byte plus an end marker (run-length encoded in traces); the theorems quantify '
                   'over arbitrary byte lists',
                   'unsigned_varint 0.8 encode/decode is transcribed by hand into Model.v (enc_fuel / scan) and exercised by the '
-                  'differential run'],
- 'level_text': 'Proof: on the model of the repaired src/substream/mod.rs (three fix: commits) — receiver totality for every codec, byte '
-               'stream, fragmentation and polling pattern (no panic, read buffer <= max(configured size, 1024)); malformed/oversized '
-               'length => ReadFailure without allocation; reader round trip (frames = initial segment of the sent messages, all of them '
-               'once the encoding is consumed) for every script; sink conservation invariant over every operation history; poll_flush '
-               'reports Ready(Ok) only with nothing queued, and then the carrier holds the full encoding; send_framed hands over exactly '
-               'the frame when it returns Ok; sender refusal; backpressure bound; end-to-end round trip through both APIs. The model is '
-               'tied to the Rust code by a per-call differential run with state dumps.',
+                  'differential run',
+                  'flush_all (SinkExt::flush(..).await inside send_framed / close) uses explicit fuel S(length script); '
+                  'C04_flush_all_fuel_adequate shows the fuel is never exhausted'],
+ 'level_text': 'Proof: on the model of the repaired src/substream/mod.rs (fix: commits F-C04a..f) — receiver totality for every codec, '
+               'byte stream, fragmentation and polling pattern (no panic, read buffer <= max(configured size, 1024)); malformed/oversized '
+               'length => ReadFailure without allocation; reader round trip for every script incl. errors and end of stream at any point; '
+               'conservation invariant (carrier bytes ++ queued bytes = encodings of the accepted messages in call order) over every '
+               'history of poll_ready/start_send/poll_flush/send_framed/poll_close/close and every carrier behaviour incl. write errors '
+               'and zero-length accepts (C04_mixed_paths_in_order: whole frames, each once, never interleaved or overtaking); poll_flush '
+               'reports Ready(Ok) only with nothing queued; send_framed hands over the queued bytes and then exactly its frame when it '
+               'returns Ok; poll_close/close are the carrier\'s shutdown only: they hand over no byte and leave the queue alone '
+               '(C04_close_sends_nothing), and after a completed flush a completed close has everything on the wire and the carrier '
+               'shut down (C04_close_after_flush_complete, C04_close_all_after_flush_complete); carrier errors are reported by the call that met them; Pending only after a Pending carrier call; sender refusal; backpressure bound; '
+               'end-to-end round trip; Identity(0) and UnsignedVarint(None) stated as the code behaves (C04_identity_zero, '
+               'C04_varint_none_unbounded_alloc). The model is tied to the Rust code by a per-call differential run with state dumps '
+               'and by end-to-end runs over real yamux substreams of the TCP and WebSocket types.',
  'level_note': 'Trusted: Coq kernel, ExtrOcamlBasic extraction, harness and hooks, hand transcription of unsigned_varint. Not modelled: '
-               'yamux flow control and wakers (carrier is a script), memory exhaustion under UnsignedVarint(None) (the announced length is '
-               'allocated as is), mixing send_framed with unflushed sink data (frames then overtake; outside the property), behaviour '
-               'after a carrier write error (the frame being written is dropped), Identity(0) delivers nothing (reported as closed). '
-               'Concurrent writer/reader interleavings are covered through the prefix form of the reader theorem.',
+               'yamux flow control itself (exercised end to end, not proved); waker identity (checked by the harness, the model only '
+               'shows that a Pending answer follows a Pending carrier call); a send_framed call that fails or is dropped midway leaves '
+               'a partial frame on the wire (the caller is told; documented as not cancellation safe) — histories are quantified over '
+               'send_framed calls that ran to completion; UnsignedVarint(None) allocates any announced length (proved as such, see '
+               'also C19); Identity(0) delivers nothing (proved as such); QUIC/WebRTC substream types.',
  'assumptions': ['message length < 2^64 (usize)',
-                 'Identity(0) excluded from the completeness clause (nothing can be delivered)',
-                 'sink histories: no carrier error reported; send_framed histories: every call returns Ok or PermissionDenied',
+                 'Identity(0) excluded from the completeness clause (C04_identity_zero states what happens instead)',
+                 'every send_framed call of a history returned Ok or PermissionDenied (a failed or abandoned call is reported to the caller; the stream is then unusable)',
+                 'Substream::close(self) ignores errors: C04_close_all_after_flush_complete assumes a carrier that does not fail',
+                 'observation, not part of the property: close drops start_send frames that were never flushed (C04_close_drops_unflushed); callers flush first',
                  '0 < BACKPRESSURE_BOUNDARY (checked against the source constant)']}
